@@ -48,6 +48,8 @@ type Case struct {
 	Tunnel    string   `json:"tunnel,omitempty"` // direct server: tunnel address
 	Only      bool     `json:"only,omitempty"`   // direct server: tunnelUDPTargetOnly
 	Seed      uint64   `json:"seed"`
+	Batch     string   `json:"batch,omitempty"` // roam: batchMode of the relay ("no" = generic loop, "" = platform default = sendmmsg)
+	Hist      string   `json:"hist,omitempty"`  // roam: the client's address family per step, e.g. "464"
 }
 
 // ---------- the statement's own arithmetic ----------
@@ -250,6 +252,8 @@ func runCase(c Case) (s *script) {
 		runUp(s, c)
 	case "down":
 		runDown(s, c)
+	case "roam":
+		runRoam(s, c)
 	default:
 		panic("unknown case kind " + c.Kind)
 	}
@@ -584,11 +588,15 @@ func record(rep *common.Report, r result, haveDriver bool) {
 	switch c.Kind {
 	case "pair":
 		rep.Count("pair " + c.C)
+	case "roam":
+		rep.Count("roam " + c.S + " batch=" + c.Batch)
 	default:
 		rep.Count(c.Kind + " " + c.S + "/" + c.C)
 	}
 	rep.Count(fmt.Sprintf("mtu=%d", c.MTU))
-	rep.Count("addr=" + strings.SplitN(c.Addr, ":", 2)[0])
+	if c.Kind != "roam" {
+		rep.Count("addr=" + strings.SplitN(c.Addr, ":", 2)[0])
+	}
 	for _, f := range s.fails {
 		f.Case = c
 		rep.Fail(f)
@@ -614,7 +622,32 @@ func record(rep *common.Report, r result, haveDriver bool) {
 	}
 }
 
-func evalAll(cases []Case, o *common.Options, rep *common.Report) {
+func evalAll(all []Case, o *common.Options, rep *common.Report) {
+	var cases, roams []Case
+	for _, c := range all {
+		if c.Kind == "roam" {
+			roams = append(roams, c)
+		} else {
+			cases = append(cases, c)
+		}
+	}
+	// relay-level scenarios use real sockets and a real relay: a few at a time
+	for lo := 0; lo < len(roams); lo += 4 {
+		hi := min(lo+4, len(roams))
+		var wg sync.WaitGroup
+		rs := make([][]result, hi-lo)
+		for i := lo; i < hi; i++ {
+			wg.Add(1)
+			go func(i int) {
+				defer wg.Done()
+				rs[i-lo] = evalBatch(roams[i:i+1], o.Driver)
+			}(i)
+		}
+		wg.Wait()
+		for _, r := range rs {
+			record(rep, r[0], o.Driver != "")
+		}
+	}
 	const batch = 150
 	workers := 12
 	type job struct{ lo, hi int }
@@ -649,13 +682,16 @@ func evalAll(cases []Case, o *common.Options, rep *common.Report) {
 func main() {
 	o := common.ParseFlags()
 	rep := common.NewReport("C05", o)
-	rep.Engines = []string{"packet"}
+	rep.Engines = []string{"packet", "roam"}
 	rep.Rule = "engine packet: (pair) client pack -> server unpack and server pack -> client unpack for direct/none/socks5/ss2022 with 0..3 identity headers; " +
 		"(up/down) a remote peer's packet placed at the service's receive offset of the relay buffer (UDPRelayHeadroom layout), unpacked, re-packed in place by every other protocol, unpacked by the far peer; " +
 		"canary-filled buffers with cap=len, payloadStart = minimal front + slack (slack -1 = excluded point, compared with the model only), payload lengths 0..3, max-3..max+2 and random, " +
 		"addresses IPv4 / IPv4-mapped / IPv6 / domain 1..255 / zero value, ports 0,1,53,65535,random, MTU {1280,1492,1500,9000,65535,+jumbo}, padding policies; " +
 		"the padding length, timestamp and ids the code chose are read back by decrypting a copy and given to the model; compared per operation: outcome class, offsets, address, hash of the plaintext packet, of the payload and of the bytes before/behind the packet; " +
-		"a case is non-trivial if at least one pack+unpack round trip succeeded; distinct by the full case description"
+		"a case is non-trivial if at least one pack+unpack round trip succeeded; distinct by the full case description. " +
+		"engine roam: a relay built through service.Config->Manager on a dual-stack loopback socket (ss2022 session relay or none NAT relay, generic and sendmmsg loops) with the direct client and a UDP echo target; " +
+		"one ss2022 client session moves between 127.0.0.1 (seen as ::ffff:127.0.0.1) and ::1 along every history of length <= 3 (+ random longer ones); after each move replies sized MTU-48±2 and MTU-28±2 are requested; " +
+		"oracle: no datagram delivered to a client exceeds the limit of the MTU and that client's address family, delivered payloads are the ones sent, fitting replies arrive; compared with the model: the largest reply let through = the cached limit the Lean model predicts for that history"
 	if o.Replay != "" {
 		var c Case
 		if err := common.LoadReplay(o.Replay, &c); err != nil {
@@ -667,6 +703,7 @@ func main() {
 		r := common.NewRng(o.Seed)
 		var cases []Case
 		cases = append(cases, directed()...)
+		cases = append(cases, roamCases(r.Fork(1<<40), o)...)
 		nPair := o.Budget(4000, 120000)
 		nRelay := o.Budget(2500, 60000)
 		for i := 0; i < nPair; i++ {
